@@ -18,7 +18,7 @@ BOUNDS = {
 }
 STUBS = ["urllib.parse.quote: per-byte model, differentially tested at start-up", "percent-decoding of the built URL: ASCII escapes only"]
 ASSUMPTIONS = ["rule maps are enumerated (pairwise non-overlapping rules)", "values are ASCII (non-ASCII quoting goes through UTF-8 and is outside this claim)"]
-OUTSIDE = ["float converter (C float parsing/formatting)", "uuid values beyond 3 (8) free hex digits in a fixed template", "non-ASCII values", "Submount/Subdomain factories", "extra query values"]
+OUTSIDE = ["float converter (C float parsing/formatting)", "uuid values beyond 3 (8) free hex digits in a fixed template", "non-ASCII values", "Subdomain factory", "extra query values"]
 
 RULES = [
     ("s", "/s/<x>", "str"),
@@ -35,7 +35,9 @@ RULES = [
     # default builds the short URL, every other value -- 0 included -- the long one
     ("d", "/d/<int:n>", "int-default"),
 ]
-DEFAULT_RULES = [("d", "/d", {"n": 1})]
+DEFAULT_RULES = [("d", "/d", {"n": 1}),
+                 # defaults for variables that DO appear in the rule: built from the default's URL form
+                 ("e", "/e/<x>/<int:n>", {"x": "a b%?#"}), ("e2", "/E/<path:p>/t", {"p": "u v/w%"})]
 
 
 class SymUUID:
@@ -146,7 +148,7 @@ def body_build_match(I, X, ep="s", script="/", external=False, n=2):
     return ok, {"url": url, "match": [got_ep, got]}
 
 
-def body_domain(I, X, ep="u", n=2, host_matching=False):
+def body_domain(I, X, ep="u", n=2, host_matching=False, factory=""):
     """subdomain / host rules: the URL built for a rule on another subdomain (or host) is
     external; matching its path on the adapter bound to that subdomain (host) gives the same
     endpoint and values -- also when the placeholder value equals a literal subdomain of a
@@ -154,12 +156,22 @@ def body_domain(I, X, ep="u", n=2, host_matching=False):
     from werkzeug.routing import Map, Rule
 
     install_builder_capture()
+    from werkzeug.routing import EndpointPrefix, Submount
+
+    def wrap(rules):
+        # rule factories copy their rules with Rule.empty(): nothing of a rule may get lost
+        if factory == "submount":
+            return [Submount("/m", rules)]
+        if factory == "endpoint-prefix":
+            return [EndpointPrefix("", rules)]
+        return rules
+
     if host_matching:
-        m = Map([Rule("/p/<int:n>", endpoint="w", host="www.example.org"), Rule("/q/<x>", endpoint="u", host="<user>.example.org"),
-                 Rule("/", endpoint="r", host="example.org")], host_matching=True)
+        m = Map(wrap([Rule("/p/<int:n>", endpoint="w", host="www.example.org"), Rule("/q/<x>", endpoint="u", host="<user>.example.org")]) +
+                [Rule("/", endpoint="r", host="example.org")], host_matching=True)
         adapter = m.bind("example.org", url_scheme="http")
     else:
-        m = Map([Rule("/p/<int:n>", endpoint="w", subdomain="www"), Rule("/q/<x>", endpoint="u", subdomain="<user>"), Rule("/", endpoint="r")])
+        m = Map(wrap([Rule("/p/<int:n>", endpoint="w", subdomain="www"), Rule("/q/<x>", endpoint="u", subdomain="<user>")]) + [Rule("/", endpoint="r")])
         adapter = m.bind("example.org", url_scheme="http")
     m.update()
     values = {}
@@ -175,10 +187,10 @@ def body_domain(I, X, ep="u", n=2, host_matching=False):
         values = {"n": X.int("n", 0, 999)}
         exp_host = "www.example.org"
     url = I.call(adapter.build, (ep,), {"values": dict(values)})
-    pre = pconcat("http://", exp_host, "/")
+    pre = pconcat("http://", exp_host, "/m/" if factory == "submount" else "/")
     if not bool(pstartswith(url, pre)):
         return False, {"url": url}
-    path = punquote(url[plen(pre) - 1:])
+    path = punquote(url[plen(pre) - (3 if factory == "submount" else 1):])
     if host_matching:
         adapter2 = I.call(m.bind, (exp_host,), {"url_scheme": "http"})
     else:
@@ -186,6 +198,36 @@ def body_domain(I, X, ep="u", n=2, host_matching=False):
     got_ep, got_args = I.call(adapter2.match, (), {"path_info": path, "method": "GET"})
     got = dict(I.dict_items(got_args))
     ok = pand(got_ep == ep, len(got) == len(values), *[peq(got.get(k), v) for k, v in values.items()])
+    return ok, {"url": url, "match": [got_ep, got]}
+
+
+def body_build_default(I, X, ep="e"):
+    """a rule whose own variable has a default: building without that value uses the default
+    (quoted once), and the URL matches back to the default"""
+    m = build_map()
+    adapter = m.bind("example.org", "/", url_scheme="http")
+    spec = [d for e, r, d in DEFAULT_RULES if e == ep][0]
+    values = {}
+    if ep == "e":
+        values["n"] = X.int("n", 0, 99999)
+    url = I.call(adapter.build, (ep,), {"values": dict(values)})
+    path = punquote(url)
+    got_ep, got_args = I.call(adapter.match, (), {"path_info": path, "method": "GET"})
+    got = dict(I.dict_items(got_args))
+    want = dict(spec)
+    want.update(values)
+    ok = pand(got_ep == ep, len(got) == len(want), *[peq(got.get(k), v) for k, v in want.items()])
+    ok = pand(ok, pall_in(url, [(0x21, 0x7E)]), pnone_in(url, [0x3F, 0x23]))
+    # the default is quoted exactly once: the built URL is the one a request for the default
+    # value carries (match() overrides the matched text with the default, so the values alone
+    # would not show a doubly quoted constant)
+    from symex.poly import pstr as _pstr
+
+    if ep == "e":
+        expected = pconcat("/e/", quoted(spec["x"]), "/", _pstr(values["n"]))
+    else:
+        expected = "/E/" + quoted(spec["p"]) + "/t"
+    ok = pand(ok, peq(url, expected))
     return ok, {"url": url, "match": [got_ep, got]}
 
 
@@ -209,8 +251,8 @@ def body_match_build(I, X, n=4):
         return True, {"outcome": "no match"}
     vals = dict(I.dict_items(args))
     url = I.call(adapter.build, (ep,), {"values": vals})
-    kind = [k for e, r, k in RULES if e == ep][0]
-    if kind in ("int", "str+int", "sint", "sint4", "int-default"):
+    kind = ([k for e, r, k in RULES if e == ep] or ["default-rule"])[0]
+    if kind in ("int", "str+int", "sint", "sint4", "int-default", "default-rule"):
         # leading zeros are not canonical for plain ints: the inverse law is stated for the
         # converter's canonical domain
         return True, {"outcome": "non-canonical domain", "ep": ep}
@@ -236,11 +278,19 @@ def obligations(tier, seed):
                                 "params": {"ep": ep, "script": script, "external": external, "n": n},
                                 "opts": {"budget_s": 900, "ctx": {"max_cp": 0x7E, "bv_ints": True, "max_digits": 6}},
                                 "witness": n in (0, 2) and script == "/" and not external})
+    for ep in ("e", "e2"):
+        out.append({"name": f"build_default[{ep}]", "body": "body_build_default", "params": {"ep": ep},
+                    "opts": {"budget_s": 900, "ctx": {"max_cp": 0x7E, "bv_ints": True, "max_digits": 6}}})
     for hm in (False, True):
         for ep, ns in (("u", [1, 3] if quick else [1, 2, 3, 4]), ("w", [0])):
             for n in ns:
                 out.append({"name": f"domain[{ep},host_matching={hm},n={n}]", "body": "body_domain", "params": {"ep": ep, "n": n, "host_matching": hm},
                             "opts": {"budget_s": 900, "ctx": {"max_cp": 0x7E, "bv_ints": True, "max_digits": 6}}})
+                if n <= 1:
+                    for fac in ("submount", "endpoint-prefix"):
+                        out.append({"name": f"domain[{ep},host_matching={hm},n={n},factory={fac}]", "body": "body_domain",
+                                    "params": {"ep": ep, "n": n, "host_matching": hm, "factory": fac},
+                                    "opts": {"budget_s": 900, "ctx": {"max_cp": 0x7E, "bv_ints": True, "max_digits": 6}}})
     for n in (range(1, 6) if quick else range(1, 8)):
         out.append({"name": f"match_build[n={n}]", "body": "body_match_build", "params": {"n": n},
                     "opts": {"budget_s": 900, "ctx": {"max_cp": 0x7E, "bv_ints": True, "max_digits": 6}}, "witness": n == 3})
